@@ -466,7 +466,7 @@ def kind_change_violations(case, out):
     if not isinstance(out, dict) or "results" not in out:
         return v
     steps = []
-    if case.get("schedule") is None:
+    if is_serial(case):
         for i, r in enumerate(out["results"]):
             if r.get("store_at_start") is not None and r.get("store_after") is not None:
                 steps.append(("delivery %d" % i, r["store_at_start"], r["store_after"]))
@@ -517,3 +517,73 @@ def cross_kind_cases():
                         for d2 in variants(b2):
                             cs.append(case("cross-kind-seq", [copy.deepcopy(d1), copy.deepcopy(d2)]))
     return cs
+
+
+# ------------------------------------------------------------------------------------------- serial runs with delayed acks
+
+BLOCK = 8     # tokens per delivery: more than any delivery needs to return and have its writes processed
+
+
+def is_serial(case):
+    """no two deliveries overlap: there is no schedule, or the schedule (acks aside) is one contiguous block of
+    >= BLOCK tokens per delivery, in delivery order -- each delivery has fully returned and its PutLocalRecords
+    have been processed before the next one starts; only the disk-write acknowledgements may be late"""
+    sched = case.get("schedule")
+    if sched is None:
+        return True
+    toks = [t for t in sched if isinstance(t, int)]
+    want = []
+    for i in range(len(case["deliveries"])):
+        n = toks.count(i)
+        if n == 0:
+            continue                      # runs at the end, after everything else
+        if n < BLOCK:
+            return False
+        want += [i] * n
+    return toks == want
+
+
+def back_to_back(kind, deliveries, store=(), acks=(), closest=(0, 1, 2, 3)):
+    """serial deliveries; the acknowledgement of the disk writes is relayed only after the deliveries whose
+    index is in `acks` (and, as always, at the very end)"""
+    sched = []
+    for i in range(len(deliveries)):
+        sched += [i] * BLOCK
+        if i in acks:
+            sched.append("ack")
+    return case(kind, deliveries, store=store, closest=closest, schedule=sched)
+
+
+def back_to_back_cases():
+    """serial deliveries to one key, the next one starting after the previous has fully returned but before
+    (or after) its disk write has been acknowledged: the record is readable (write cache) but not yet indexed"""
+    cs = []
+
+    def entries(body):
+        out = [("repl", delivery("repl", body if body["t"] != "tx" else {"t": "txs", "list": [body]})),
+               ("paid", delivery("client", body, paid=True))]
+        if body["t"] != "tx":
+            out.append(("unpaid", delivery("client", body)))
+        return out
+
+    families = {
+        "tx": ([tx(1, 2), tx(1, 3), tx(1, 4)], held({"t": "txs", "list": [tx(1, 1)]})),
+        "reg": ([reg(1, 1, ops=[op(2, 1)]), reg(1, 1, ops=[op(3, 1)]), reg(1, 1, ops=[op(4, 1), op(2, 1)])],
+                held(reg(1, 1, ops=[op(1, 1)]))),
+        "pad": ([pad(1, 7), pad(1, 6, data=60), pad(1, 9)], held(pad(1, 5))),
+    }
+    for fam, (bodies, prior) in families.items():
+        for store in ([], [prior]):
+            for (n1, d1) in entries(bodies[0]):
+                for (n2, d2) in entries(bodies[1]):
+                    for acks in ((), (0,)):
+                        c = back_to_back("back-to-back-" + fam, [copy.deepcopy(d1), copy.deepcopy(d2)],
+                                            store=copy.deepcopy(store), acks=acks)
+                        cs.append(c)
+            # three in a row, acknowledgement only after the second
+            for (n1, d1) in entries(bodies[0]):
+                ds = [copy.deepcopy(d1)] + [copy.deepcopy(entries(b)[0][1]) for b in bodies[1:]]
+                cs.append(back_to_back("back-to-back-" + fam, ds, store=copy.deepcopy(store), acks=(1,)))
+    return cs
+
+
